@@ -245,12 +245,14 @@ def adaptGroup (ctx : Ctx) (st : PSt) (p : String) : PSt × String × List Call 
         | none =>
           ({ st with nod := (key, gb.id) :: st.nod }, groupPath gb.id, [putGroupCall gb])
 
-/-- Addresses to remove and to add according to an edit script. -/
-def addrDiff (rs : List Range) (a b : List String) : List String × List String :=
-  rs.foldl (fun (acc : List String × List String) r =>
-    if r.isDelete then (acc.1 ++ (a.drop r.lowA).take (r.highA - r.lowA), acc.2)
-    else if r.isInsert then (acc.1, acc.2 ++ (b.drop r.lowB).take (r.highB - r.lowB))
-    else acc) ([], [])
+/-- Addresses to remove and to add according to an edit script (deletion tested first). -/
+def addrDiff : List Range → List String → List String → List String × List String
+  | [], _, _ => ([], [])
+  | r :: rest, a, b =>
+    let (rm, ad) := addrDiff rest a b
+    if r.isDelete then ((a.drop r.lowA).take (r.highA - r.lowA) ++ rm, ad)
+    else if r.isInsert then (rm, (b.drop r.lowB).take (r.highB - r.lowB) ++ ad)
+    else (rm, ad)
 
 /-- The calls that turn the address list of device group `ga` into that of `gb`
 (the tail of `equalize`). -/
